@@ -53,7 +53,7 @@ func quoteZql(s string) string {
 	return b.String()
 }
 
-var c11Alphabet = []rune{'\\', '\\', '\\', '"', '"', 'n', 't', 'r', 'f', '\n', '\t', '\r', '\f', 'a', 'b', ' ', 'Z', '0', '%', '\'', '(', ']', ',', 'é', '☃'}
+var c11Alphabet = []rune{'\\', '\\', '\\', '"', '"', 'n', 't', 'r', 'f', '\n', '\t', '\r', '\f', 'a', 'b', ' ', ' ', 'Z', '0', '%', '\'', '(', ']', ',', 'é', '☃'}
 
 func genC11String(t *rapid.T, label string) string {
 	n := rapid.IntRange(0, 12).Draw(t, label+"_len")
@@ -246,6 +246,26 @@ func runC11(c c11Case) kit.Result {
 	sort.Strings(gotMem)
 	if fmt.Sprint(gotMem) != fmt.Sprint(expect) {
 		res.Err = fmt.Errorf("filter %s over in-memory rows %q: got %v want %v", filter, values, gotMem, expect)
+		return res
+	}
+
+	// route A': the parser's debug switch only adds diagnostics, the literal denotes the same string with it
+	ast.EnableQueryDebug.Store(true)
+	qd, derr := ast.Parse(kit.MemTypes("people"), filter)
+	ast.EnableQueryDebug.Store(false)
+	if derr != nil {
+		res.Err = fmt.Errorf("filter %s rejected when ast.EnableQueryDebug is on: %v", filter, derr)
+		return res
+	}
+	var gotDebug []string
+	for _, p := range d.People {
+		if qd.EvalBool(kit.NewMemSymbols(d, "people", p.ID, false)) {
+			gotDebug = append(gotDebug, p.ID)
+		}
+	}
+	sort.Strings(gotDebug)
+	if fmt.Sprint(gotDebug) != fmt.Sprint(expect) {
+		res.Err = fmt.Errorf("filter %s parsed with ast.EnableQueryDebug on, over in-memory rows %q: got %v want %v", filter, values, gotDebug, expect)
 		return res
 	}
 
